@@ -197,6 +197,8 @@ func runConcCore(t *testing.T, p *Plan, ns string) *Outcome {
 	var serials []c05Exec
 	var orders [][]int
 	var blame []string
+	var torn []string
+	var tornDetail string
 	var panicSig string
 	matched := false
 	br := RunBubble(t, func() {
@@ -276,6 +278,8 @@ func runConcCore(t *testing.T, p *Plan, ns string) *Outcome {
 			startNext(c)
 		}
 		ksSteps := map[int][]int{} // op -> steps at which it ran a keyspace step
+		changes := make([]int, len(p.Ops))
+		lastData := hashString(DataString2(StripExpired(inst.DB.VerifDump(), nowMs(), false)))
 		for budget := 0; budget < 3000; budget++ {
 			parked := s.ParkedTasks()
 			if len(parked) == 0 {
@@ -315,11 +319,36 @@ func runConcCore(t *testing.T, p *Plan, ns string) *Outcome {
 					}
 				}
 			}
+			// which command does this step belong to (for the torn-write check below)
+			owner := -1
+			if i, ok := taskOp[tk]; ok {
+				owner = i
+			} else if tk.Owned {
+				for c := 0; c < nclients; c++ {
+					if cs[c].TCP && next[c] > 0 && strings.HasSuffix(tk.Name, cs[c].Name) {
+						owner = perClient[c][next[c]-1]
+					}
+				}
+			}
 			s.Release(tk)
+			if owner >= 0 && !tk.Bookkeeping {
+				if h := hashString(DataString2(StripExpired(inst.DB.VerifDump(), nowMs(), false))); h != lastData {
+					lastData = h
+					changes[owner]++
+				}
+			} else {
+				lastData = hashString(DataString2(StripExpired(inst.DB.VerifDump(), nowMs(), false)))
+			}
 			for c := 0; c < nclients; c++ {
 				if next[c] > 0 && next[c] < len(perClient[c]) && ops[perClient[c][next[c]-1]].done {
 					startNext(c)
 				}
+			}
+		}
+		for i, n := range changes {
+			if sp := specByName[strings.ToUpper(p.Ops[i].Args[0])]; n >= 2 && sp != nil && sp.Write && p.Profile != "conn" {
+				torn = append(torn, strings.ToUpper(p.Ops[i].Args[0]))
+				tornDetail = fmt.Sprintf("%q changed the dataset in %d separate steps: a command of another client scheduled between them observes a half-applied command", p.Ops[i].Args, n)
 			}
 		}
 		for i, st := range ops {
@@ -457,6 +486,14 @@ func runConcCore(t *testing.T, p *Plan, ns string) *Outcome {
 		}
 		return o
 	}
+	// ---- a write command whose effect is spread over several steps (reported whether or not this run's
+	// interleaving happened to put an observer in between: the half-applied state existed)
+	if len(torn) > 0 && ns == "C05" {
+		sort.Strings(torn)
+		o.Sig = "C05/torn-write/" + torn[0]
+		o.Detail = tornDetail
+		return o
+	}
 	// ---- compare
 	if matched || len(serials) == 0 {
 		return o
@@ -465,6 +502,42 @@ func runConcCore(t *testing.T, p *Plan, ns string) *Outcome {
 	rel := keyRelation(p.Ops)
 	sort.Strings(blame)
 	blame = uniq(blame)
+	if p.Profile != "conn" {
+		// Write commands run one at a time (569d0b5) and read commands write nothing, so whatever the readers'
+		// own non-atomicity (recorded findings) does to THEIR replies, the final dataset and the writers' replies
+		// are those of some serial order. If they are not, the anomaly cannot be blamed on a recorded reader
+		// finding: a write was lost, torn or undone.
+		now := nowMs()
+		dataOK := false
+		for _, ex := range serials {
+			if !mapsEqual(stripExpiredMap(ex.data, now), stripExpiredMap(conc.data, now)) {
+				continue
+			}
+			ok := true
+			for i, op := range p.Ops {
+				if sp := specByName[strings.ToUpper(op.Args[0])]; sp != nil && sp.Write && ex.results[i] != conc.results[i] {
+					ok = false
+				}
+			}
+			if ok {
+				dataOK = true
+				break
+			}
+		}
+		if !dataOK {
+			culprit := o.Class
+			for _, b := range blame {
+				culprit = b
+				if sp := specByName[b]; sp != nil && !sp.Write {
+					break // a read command whose steps were interleaved and after which the data is wrong
+				}
+			}
+			o.Sig = "C05/dataset-nonserializable/" + culprit
+			o.Detail = fmt.Sprintf("commands %v: the final dataset (and the write commands' replies) match no serial order of the %d tried, although write commands run one at a time: a write was lost, torn or undone; interleaved commands: %v; concurrent replies %v; e.g. serial order %v gives replies %v; dataset diff vs that order: %s",
+				opsStrings(p.Ops), len(serials), blame, conc.results, orders[0], serials[0].results, DiffData(conc.data, serials[0].data, "concurrent", "serial", 4))
+			return o
+		}
+	}
 	known := ""
 	for _, b := range blame {
 		if Avoiding(p, "C05/nonatomic/"+b) || openSigs["C05/nonatomic/"+b] {
